@@ -58,6 +58,17 @@ pub fn run_campaign(c: &Campaign, seed: u64) -> Outcome {
     let art = scratch.join("artifacts");
     let _ = std::fs::create_dir_all(&art);
     let start = std::time::Instant::now();
+    // the first build of the fuzz targets can take many minutes on a loaded machine: keep the watchdog fed while
+    // the child runs (at most 60 min; a longer stall is reported as inconclusive by the watchdog)
+    let done = std::sync::Arc::new(std::sync::atomic::AtomicBool::new(false));
+    let done2 = done.clone();
+    let feeder = std::thread::spawn(move || {
+        let t0 = std::time::Instant::now();
+        while !done2.load(std::sync::atomic::Ordering::Relaxed) && t0.elapsed().as_secs() < 3600 {
+            heartbeat();
+            std::thread::sleep(std::time::Duration::from_secs(5));
+        }
+    });
     let out = Command::new("cargo")
         .current_dir(format!("{VERIF_DIR}/harness"))
         .env("RUSTFLAGS", "--cfg cfdp_verif --cfg tokio_unstable")
@@ -72,7 +83,10 @@ pub fn run_campaign(c: &Campaign, seed: u64) -> Outcome {
         .arg(format!("-max_len={}", c.max_len))
         .arg(format!("-artifact_prefix={}/", art.display()))
         .arg("-print_final_stats=1")
+        .env("CFDP_VERIF_SCRATCH", scratch.join("work"))
         .output();
+    done.store(true, std::sync::atomic::Ordering::Relaxed);
+    let _ = feeder.join();
     let secs = start.elapsed().as_secs_f64();
     let out = match out {
         Ok(o) => o,
